@@ -28,7 +28,7 @@ TECHNIQUE = "per-cycle BFS closure over all input/trigger sequences; read-back o
 
 def configs(tier):
     if tier == "quick":
-        shapes = [(2, 2, 0), (2, 2, 1), (2, 3, 1), (2, 2, 2), (1, 4, 0), (1, 4, 3), (1, 8, 1), (1, 3, 2), (1, 5, 2), (1, 2, 3), (3, 2, 0), (1, 4, 1)]
+        shapes = [(2, 2, 0), (2, 2, 1), (2, 3, 1), (1, 4, 0), (1, 4, 3), (1, 8, 1), (1, 3, 2), (1, 5, 2), (1, 2, 3), (1, 4, 1)]
     else:
         shapes = [(1, d, p) for d in (2, 3, 4, 5, 8) for p in (0, 1, 2, 3)]
         shapes += [(2, d, p) for d in (2, 3) for p in (0, 1, 2, 3)] + [(2, 4, 0), (2, 4, 1), (2, 4, 2), (3, 2, 0), (3, 2, 1), (3, 3, 0), (1, 12, 1), (1, 16, 0)]
@@ -43,7 +43,8 @@ class IlaSpec(Spec):
         self.w, self.depth, self.p = cfg["width"], cfg["depth"], cfg["pretrigger"]
         self._acts = [(v, t) for v in range(1 << self.w) for t in (0, 1)]
         self.limit = self.depth + self.p + 4
-        self.time_budget = 35 if tier == "quick" else 800
+        self.time_budget = 150 if tier == "quick" else 850      # safety net only; sized to finish in seconds
+        self.max_states = 400_000 if tier == "quick" else 3_000_000
 
     def build(self):
         from amaranth import Signal
